@@ -78,7 +78,11 @@ def _specs(ltype, names):
     return out
 
 
-_T = {'conv1d': nn.Conv1d, 'conv2d': nn.Conv2d, 'linear': nn.Linear}
+class UserConv2d(nn.Conv2d):
+    """a user layer type deriving from nn.Conv2d (looked up under its own type; its PARENT's patterns live in the same spec)"""
+
+
+_T = {'conv1d': nn.Conv1d, 'conv2d': nn.Conv2d, 'linear': nn.Linear, 'subconv2d': UserConv2d}
 
 
 def cases(tier, seed):
@@ -88,6 +92,9 @@ def cases(tier, seed):
         for default in ('zero', 'fail'):
             for foreign in ((False,) if tier == 'quick' else (False, True)):
                 out.append({'ltype': ltype, 'default': default, 'npat': npat, 'foreign': foreign})
+    # a user sub-class of nn.Conv2d, with registrations for its parent type interleaved (the parent is the "foreign" type)
+    for default in ('zero', 'fail'):
+        out.append({'ltype': 'subconv2d', 'default': default, 'npat': 3 if tier == 'quick' else 4, 'foreign': True})
     return out
 
 
@@ -128,7 +135,7 @@ def _build(ltype, default, history, foreign, probe=None):
     pats = _patterns(ltype)
     cs = CostSpec(shared=True, default_behavior=default)
     T = _T[ltype]
-    other = nn.Conv1d if ltype != 'conv1d' else nn.Conv2d
+    other = nn.Conv2d if ltype == 'subconv2d' else nn.Conv1d if ltype != 'conv1d' else nn.Conv2d
     for i, p in enumerate(history):
         if foreign:
             # interleave registrations for an unrelated layer type (always-true constraint and unconstrained)
